@@ -21,3 +21,4 @@ def run(project, rep):
     rep.run(A.a_r1_getattr, schema, rep)
     rep.run(A.a_r2_r3_properties, schema, rep)
     rep.run(A.a_r4_ofx, schema, rep)
+    rep.run(A.a_r5_recomputed_and_picklable, schema, rep)
